@@ -210,6 +210,15 @@ impl Fragmenter {
     }
 }
 
+#[cfg(feature = "verif-hooks")]
+impl Fragmenter {
+    /// Verification hook: sets the stream offset the next packet is sent under (an honest sender
+    /// reaches large offsets only after sending that many bytes).
+    pub fn verif_set_stream_offset(&mut self, stream_offset: u64) {
+        self.stream_offset = stream_offset;
+    }
+}
+
 /// Error returned by [`Fragmenter::send`] when a packet cannot be fragmented.
 #[derive(Error, Clone, Debug, PartialEq, Eq)]
 pub enum FragmenterSendError {
